@@ -800,19 +800,19 @@ func c15Files(rows []c15Row) map[string]string {
 	}
 	onlyImp := ""
 	if strings.Contains(decls.String(), "only.") {
-		onlyImp = "\tonly \"{{ROOT}}/onlycopied\"\n"
+		onlyImp = "\tonly \"{{ROOT}}/thirdvendor/onlycopied\"\n" // a directory whose name merely ends in "vendor"
 	}
 	wire := "//go:build wireinject\n// +build wireinject\n\npackage p\n\nimport (\n\tacfg \"{{ROOT}}/alpha/cfg\"\n\tbcfg \"{{ROOT}}/beta/cfg\"\n\t. \"{{ROOT}}/dotpkg\"\n" + onlyImp + "\t\"github.com/google/wire\"\n)\n\n" +
 		"func InitThing() Thing {\n\tpanic(wire.Build(acfg.NewA, bcfg.NewB, newThing))\n}\n\nfunc newThing(a int, b bcfg.B) Thing { return Thing{A: a, B: b.V + DotConst*0} }\n" + decls.String()
 	driver := "package p\n\nimport \"example.com/m/vt\"\n\nfunc VerifDrive() {\n\tvt.Case(\"{{CASE}}\")\n" + calls.String() + "\tfunc() {\n\t\tdefer func() { recover() }()\n\t\tt := InitThing()\n\t\tvt.Note(\"thing=\" + itoa(t.A) + itoa(t.B))\n\t}()\n}\n"
 	return map[string]string{
-		"defs.go":          c15Defs,
-		"wire.go":          wire,
-		"driver.go":        driver,
-		"alpha/cfg/cfg.go": c15LibA,
-		"beta/cfg/cfg.go":  c15LibB,
-		"dotpkg/dot.go":    c15Dot,
-		"onlycopied/o.go":  "package onlycopied\n\nvar Word = \"only\"\n\nfunc Twice(x int) int { return 2 * x }\n",
+		"defs.go":                     c15Defs,
+		"wire.go":                     wire,
+		"driver.go":                   driver,
+		"alpha/cfg/cfg.go":            c15LibA,
+		"beta/cfg/cfg.go":             c15LibB,
+		"dotpkg/dot.go":               c15Dot,
+		"thirdvendor/onlycopied/o.go": "package onlycopied\n\nvar Word = \"only\"\n\nfunc Twice(x int) int { return 2 * x }\n",
 	}
 }
 
